@@ -147,23 +147,40 @@ func deepEq(a, b any, nanEq bool, d int) bool {
 }
 
 // Copy deep-copies a value with a depth bound (cycles are cut with a marker).
-func Copy(v any) any { return copyD(v, 0) }
+func Copy(v any) any {
+	n := 0
+	return copyD(v, 0, &n)
+}
 
-func copyD(v any, d int) any {
+// CopyN is Copy that also reports whether the node budget was exhausted
+// (the copy is then truncated with "<big>" markers).
+func CopyN(v any) (any, bool) {
+	n := 0
+	c := copyD(v, 0, &n)
+	return c, n > copyBudget
+}
+
+const copyBudget = 50000
+
+func copyD(v any, d int, n *int) any {
+	*n++
 	if d > 40 {
 		return "<deep>"
+	}
+	if *n > copyBudget {
+		return "<big>"
 	}
 	switch x := v.(type) {
 	case []any:
 		o := make([]any, len(x))
 		for i := range x {
-			o[i] = copyD(x[i], d+1)
+			o[i] = copyD(x[i], d+1, n)
 		}
 		return o
 	case map[string]any:
 		o := make(map[string]any, len(x))
 		for k, e := range x {
-			o[k] = copyD(e, d+1)
+			o[k] = copyD(e, d+1, n)
 		}
 		return o
 	}
